@@ -562,6 +562,15 @@ func c09Body(e *Env) {
 	_ = plannedKnown
 	if cfg.Closer {
 		total++
+		// C18 inside the simulation: the path lock may only be given up once no
+		// transaction is open any more (otherwise another process could open and
+		// change the file under a reader that Close is still waiting for)
+		r.D.OnUnlock = func() {
+			if cc.openTx > 0 {
+				e.Fail("C18", "path-lock-released-early", "File.Close released the path lock while %d transactions were still open (Close had not returned yet)", cc.openTx)
+			}
+			e.Probe("path_unlock_observed")
+		}
 		e.S.Go("closer", func() {
 			defer finish()
 			// Close is invoked once every Begin call has returned; transactions may
